@@ -1,6 +1,7 @@
 (* RepairProofs2.v — the output writer of the repair loop, represented by the list of blocks
    it has emitted: every call the loop makes succeeds, keeps the list well-formed and is
    recorded in a history of successful writer calls from the initial state. *)
+From MLA Require Import Limit.
 From MLA Require Import Base Stream Blocks Writer RepairSpec RepairPure.
 From Coq Require Import ZifyBool ZifyNat ZifyN.
 Open Scope N_scope.
@@ -101,6 +102,7 @@ Proof.
 Qed.
 
 Section WriterRep.
+  Context {LIM : Limit}.
   Variable FNMAX : N.
   Variables T_START T_CONTENT T_EOA T_EOF : N.
   Variable H : bytes -> bytes.
@@ -280,24 +282,40 @@ Section WriterRep.
     - apply (history_step out (OEnd id) _ 0 (wr_hist _ _ W)). exact Hw.
   Qed.
 
-  (* finalize: all files ended *)
+  (* finalize: all files ended; the footer fits the bincode limit and the u32 length field *)
   Lemma Wrep_finalize out obl : Wrep out obl ->
     (forall f, In f (files_of obl) -> f_ended f = true) ->
+    len (ser_footer_map (w_footer out)) <= lim -> len (ser_footer_map (w_footer out)) < 2 ^ 32 ->
     exists out', w_finalize out = (out', Ok 0) /\ w_final out' = true /\
       w_out out' = body (obl ++ [BEnd]) ++ ser_footer (w_footer out) /\
       w_files out' = name_list (files_of obl) /\
       wf_from [] (obl ++ [BEnd]) /\ history out'.
   Proof.
-    intros W Ha.
+    intros W Ha Hl H32.
     assert (Hw : w_finalize out =
       (mkW (w_out out ++ ser_block BEnd ++ ser_footer (w_footer out)) true [] (w_files out)
            (w_ids out) (w_next out) (w_cur out), Ok 0)).
     { unfold Writer.w_finalize_with. rewrite (wr_final _ _ W), (wr_open _ _ W), (open_list_all_ended _ Ha).
+      cbv zeta.
+      destruct (N.ltb_spec lim (len (ser_footer_map (w_footer out)))); [lia|].
+      destruct (N.leb_spec (2 ^ 32) (len (ser_footer_map (w_footer out)))); [lia|].
       reflexivity. }
     eexists. split; [exact Hw|]. cbn [w_final w_out w_files]. split; [reflexivity|]. split; [|split; [|split]].
     - rewrite body_app, body_one, (wr_out _ _ W), <- app_assoc. reflexivity.
     - exact (wr_files _ _ W).
     - apply wf_from_snoc; [exact (wr_wf _ _ W) | exact (wr_noend _ _ W) | exact Ha].
     - apply (history_step out OFinalize _ 0 (wr_hist _ _ W)). exact Hw.
+  Qed.
+  (* ... and otherwise finalize fails with SerializationError (after the end marker) *)
+  Lemma Wrep_finalize_unfit out obl : Wrep out obl ->
+    (forall f, In f (files_of obl) -> f_ended f = true) ->
+    lim < len (ser_footer_map (w_footer out)) \/ 2 ^ 32 <= len (ser_footer_map (w_footer out)) ->
+    exists out', w_finalize out = (out', Err EDeser).
+  Proof.
+    intros W Ha Hbig.
+    unfold Writer.w_finalize_with. rewrite (wr_final _ _ W), (wr_open _ _ W), (open_list_all_ended _ Ha).
+    cbv zeta.
+    destruct (N.ltb_spec lim (len (ser_footer_map (w_footer out)))); [eexists; reflexivity|].
+    destruct (N.leb_spec (2 ^ 32) (len (ser_footer_map (w_footer out)))); [eexists; reflexivity|lia].
   Qed.
 End WriterRep.
